@@ -56,6 +56,7 @@ type Exec struct {
 	isCallee  bool
 	rtMode    bool
 	phiProv   map[*ssa.Phi]string
+	inlineDepth int
 	pkgForTags *ssa.Package
 	trackWrites bool
 }
@@ -577,6 +578,7 @@ func (x *Exec) execFrom(st *State, b *ssa.BasicBlock, pred *ssa.BasicBlock) {
 			// back edge: invariant preserved, variant decreased; path ends here
 			x.bindPhis(st, b, pred)
 			st.lenv = x.loopEnv(st, li)
+			st.lenvOwner = li.header
 			x.checkInvariants(st, li, "preserved")
 			for _, in := range b.Instrs {
 				phi, ok := in.(*ssa.Phi)
@@ -593,10 +595,12 @@ func (x *Exec) execFrom(st *State, b *ssa.BasicBlock, pred *ssa.BasicBlock) {
 		}
 		x.bindPhis(st, b, pred)
 		st.lenv = x.loopEnv(st, li)
+		st.lenvOwner = li.header
 		x.checkInvariants(st, li, "entry")
 		st.entryOf[b] = st.clone()
 		x.havocLoop(st, li)
 		st.lenv = x.loopEnv(st, li)
+		st.lenvOwner = li.header
 		x.assumeInvariants(st, li)
 	} else {
 		x.bindPhis(st, b, pred)
@@ -926,17 +930,119 @@ func pureCallee(cc *ssa.CallCommon) bool {
 func (x *Exec) loopEnv(st *State, li *loopInfo) map[string]Value {
 	env := map[string]Value{}
 	for k, v := range st.lenv { // names of enclosing loops stay visible
+		if st.lenvOwner != li.header && strings.HasPrefix(k, "\\outer_") {
+			continue // stale: belonged to another loop nest
+		}
 		env[k] = v
 	}
+	if st.lenvOwner != li.header && st.lenvOwner != nil && x.loops[st.lenvOwner] != nil && x.loops[st.lenvOwner].blocks[li.header] {
+		// entering a loop nested in the one whose names are current: keep the enclosing loop's role names as \outer_*
+		for k, v := range st.lenv {
+			if strings.HasPrefix(k, "\\") && !strings.HasPrefix(k, "\\outer_") {
+				env["\\outer_"+k[1:]] = v
+			}
+		}
+	}
+	var phis []*ssa.Phi
 	for _, in := range li.header.Instrs {
 		phi, ok := in.(*ssa.Phi)
 		if !ok {
 			break
 		}
+		phis = append(phis, phi)
 		if phi.Comment != "" {
 			env[phi.Comment] = st.env[phi]
 			if phi.Comment == "rangeindex" {
 				env["\\idx"] = st.env[phi]
+			}
+		}
+	}
+	// role names, independent of what the programmer called the variables:
+	//   \iv   the induction variable (the loop-carried value the loop condition tests)
+	//   \k    the number of completed iterations' worth of progress: \iv for an index loop, \idx+1 for a range loop
+	//   \n    what \k is compared with in the loop condition
+	//   \acc  the (first) other loop-carried value, \acc2 the second
+	//   \arr  the slice the loop indexes with the induction variable
+	var iv *ssa.Phi
+	if ifi, ok := li.header.Instrs[len(li.header.Instrs)-1].(*ssa.If); ok {
+		if cmp, ok := ifi.Cond.(*ssa.BinOp); ok {
+			for side, op := range []ssa.Value{cmp.X, cmp.Y} {
+				var cand *ssa.Phi
+				kval := op
+				if p, ok := op.(*ssa.Phi); ok && p.Block() == li.header {
+					cand = p
+				} else if b, ok := op.(*ssa.BinOp); ok {
+					if p, ok := b.X.(*ssa.Phi); ok && p.Block() == li.header {
+						cand = p
+					}
+				}
+				if cand == nil {
+					continue
+				}
+				iv = cand
+				env["\\iv"] = st.env[cand]
+				if pv, ok := st.env[cand].(VInt); ok {
+					env["\\k"] = pv
+					if b, ok := kval.(*ssa.BinOp); ok {
+						if cst, ok := b.Y.(*ssa.Const); ok && b.Op == token.ADD {
+							if cv, ok := x.constValue(cst, st).(VInt); ok {
+								env["\\k"] = VInt{Add(pv.T, cv.T)}
+							}
+						}
+					}
+				}
+				other := cmp.Y
+				if side == 1 {
+					other = cmp.X
+				}
+				switch o := other.(type) {
+				case *ssa.Const:
+					env["\\n"] = x.constValue(o, st)
+				default:
+					if v, ok := st.env[other]; ok {
+						env["\\n"] = v
+					}
+				}
+				break
+			}
+		}
+	}
+	if _, ok := env["\\k"]; !ok {
+		if v, ok := env["\\idx"].(VInt); ok {
+			env["\\k"] = VInt{Add(v.T, IntC(1))}
+		}
+	}
+	nacc := 0
+	for _, p := range phis {
+		if p == iv {
+			continue
+		}
+		nacc++
+		if nacc == 1 {
+			env["\\acc"] = st.env[p]
+		} else {
+			env[fmt.Sprintf("\\acc%d", nacc)] = st.env[p]
+		}
+	}
+	if iv != nil {
+		for b := range li.blocks {
+			for _, in := range b.Instrs {
+				ia, ok := in.(*ssa.IndexAddr)
+				if !ok {
+					continue
+				}
+				uses := false
+				switch idx := ia.Index.(type) {
+				case *ssa.Phi:
+					uses = idx == iv
+				case *ssa.BinOp:
+					uses = idx.X == iv
+				}
+				if uses {
+					if v, ok := st.env[ia.X]; ok {
+						env["\\arr"] = v
+					}
+				}
 			}
 		}
 	}
